@@ -98,6 +98,14 @@ h.h.append({"op": "recv", "c": 2000, "t": 824, "msg": {"type": "ping", "ping": 1
 save("findings", "K-alloc-exhaust", h.h, ["C17"], {},
      "allocate with all of 1-999 taken and every random draw taken: ValueError escapes the handler")
 
+h = H()
+h.conn(1, "a", "s1").recv(1, {"type": "claim", "nameplate": "4"}, fresh="mb4")
+h.recv(1, {"type": "release", "nameplate": "4"}, dt=80)
+h.conn(2, "a", "s2").recv(2, {"type": "open", "mailbox": "mq"})
+h.recv(2, {"type": "close", "mailbox": "mq", "mood": "happy"}, dt=80)
+save("findings", "K-usage-crash-dup", h.h, ["C10"], {"resend": True},
+     "a crash between the usage commit and the channel commit of release/close: the re-sent command writes the usage record a second time")
+
 # ---------------------------------------------------------------- repaired defects (corpus)
 # F-close-key (a): two sides on one nameplate, both open, both close -> IntegrityError before the repair
 h = H()
